@@ -102,6 +102,14 @@ Definition underlying_okb : bool :=
 Lemma underlying_ok : underlying_okb = true.
 Proof. vm_compute. reflexivity. Qed.
 
+(* the operand selectors are the ones pred_eval assumes; Object.Is / Node.Is dispatch tables are the documented ones *)
+Lemma selectors_ok : selectors_okb gen_subexpr_cases gen_typeof_cases gen_typeof_tail = true.
+Proof. vm_compute. reflexivity. Qed.
+Lemma object_is_ok : object_is_okb gen_object_is gen_object_is_accepted = true.
+Proof. vm_compute. reflexivity. Qed.
+Lemma node_is_ok : node_is_okb gen_node_is = true.
+Proof. vm_compute. reflexivity. Qed.
+
 (* the constructor summary a documented predicate path reaches *)
 Definition ctor_of_path (p : string) : option ctor_info :=
   match assoc p doc_wiring with
